@@ -209,7 +209,7 @@ class LinearOperator(EditableModule):
             _orig_params_ = self.getuniqueparams(methodname)
             self.setuniqueparams(methodname, *params)
             if _vh.ENABLED:
-                _vh.emit("lo.use", op=self, params=params)
+                _vh.emit("lo.use", op=self, params=params, orig=_orig_params_)
             yield self
         finally:
             self.setuniqueparams(methodname, *_orig_params_)
